@@ -42,6 +42,9 @@ func genLen(r *driver.Rand, thorough bool) int {
 	// buffering mistakes live
 	if (thorough && r.Chance(1, 15)) || r.Chance(1, 50) {
 		if r.Chance(1, 6) {
+			if thorough && r.Chance(1, 3) {
+				return driver.Pick(r, 2049, 4097)
+			}
 			return driver.Pick(r, 513, 1025) // beyond page-sized internal buffers
 		}
 		return driver.Pick(r, 17, 33, 64, 65, 100, 128, 129, 257)
